@@ -120,6 +120,10 @@ def k_ucart(tr, u11, u22, u33, u23, u13, u12, a, b, c, al, be, ga):
 def k_ueq(tr, u11, u22, u33, u23, u13, u12, a, b, c, al, be, ga):
     return mk_atom(mk_cell(a, b, c, al, be, ga), [u11, u22, u33, u23, u13, u12]).ueq
 
+def k_npd(tr, u11, u22, u33, u23, u13, u12, a, b, c, al, be, ga):
+    # Atom.is_npd() as a number: 1 = reported non-positive-definite, 0 = not
+    return 1 if mk_atom(mk_cell(a, b, c, al, be, ga), [u11, u22, u33, u23, u13, u12]).is_npd() else 0
+
 def k_vector_length(tr, x, y, z, a, b, c, al, be, ga):
     from shelxfile.shelx.sdm import SDM
     class S: pass
@@ -223,6 +227,7 @@ KERNELS = {
     ],
     'K_adp': [
         ('ustar', k_ustar, U6 + CELLV), ('ucart', k_ucart, U6 + CELLV), ('ueq', k_ueq, U6 + CELLV),
+        ('npd', k_npd, U6 + CELLV),
     ],
     'K_geom': [
         ('angle', k_angle, pts('p', 3)), ('torsion', k_torsion, pts('p', 4)),
@@ -255,6 +260,25 @@ def rand_env(rng, argnames):
             env[n] = round(rng.uniform(-3, 3), 4)
     return env
 
+
+def env_npd(rng, env):
+    # reach every branch of is_npd: first non-zero value at each position, isotropic atoms in the three ranges, non-positive-definite tensors
+    r = rng.random()
+    if r < 0.35:
+        k = rng.randint(0, 5)
+        for n in ['u22', 'u33', 'u23', 'u13', 'u12'][:k]:
+            env[n] = 0.0
+        if k == 5:
+            env['u11'] = rng.choice([0.05, -0.3, -1.2, 0.0, -0.5])
+    elif r < 0.6:
+        for n in ('u23', 'u13', 'u12'):
+            env[n] = round(rng.uniform(-0.09, 0.09), 5)
+    elif r < 0.7:
+        env[rng.choice(['u11', 'u22', 'u33'])] = round(rng.uniform(-0.05, 0.0), 5)
+    return env
+
+
+ENV_HOOKS = {'npd': env_npd}
 
 ORACLE_TAGS = {'sqrt': 0, 'cos': 1, 'sin': 2, 'acos': 3, 'radians': 4, 'degrees': 5}
 
@@ -335,8 +359,10 @@ def regenerate(files=None, validate=True, seed=1):
                 krep = {'outputs': len(comps), 'nodes': len(tr.cache), 'rounded': tr.rounded}
                 if validate:
                     nfl = 0
-                    for _ in range(8):
+                    for _ in range(8 if name not in ENV_HOOKS else 40):
                         env = rand_env(rng, argnames)
+                        if name in ENV_HOOKS:
+                            env = ENV_HOOKS[name](rng, env)
                         try:
                             real = call_real(fn, env, argnames)
                         except (ValueError, ZeroDivisionError):
@@ -352,8 +378,11 @@ def regenerate(files=None, validate=True, seed=1):
                                 raise T.TraceError('tracer validation failed for %s: %r vs %r at %r' % (name, w, g, env))
                         nfl += 1
                     krep['float_validations'] = nfl
-                    for _ in range(2):
-                        env = {k: Fraction(repr(v)) for k, v in rand_env(rng, argnames).items()}
+                    for _ in range(2 if name not in ENV_HOOKS else 8):
+                        env0 = rand_env(rng, argnames)
+                        if name in ENV_HOOKS:
+                            env0 = ENV_HOOKS[name](rng, env0)
+                        env = {k: Fraction(repr(v)) for k, v in env0.items()}
                         table = []
                         try:
                             vals = eval_q(tree, env, table)
